@@ -216,6 +216,9 @@ class Body:
         ds = self.defs().get(l, [])
         if len(ds) != 1 or depth > 40:
             return ("var", name, l) if name else ("tmp", l)
+        if through_vars == "pure" and name is not None and l in self.mut_borrows():
+            # an object that is borrowed mutably somewhere (`let mut v = vec![..]; .. v.pop()`) is not the value it was created with
+            return ("var", name, l)
         key = (l, through_vars)
         if key in self._cache:
             return self._cache[key]
@@ -251,9 +254,68 @@ class Body:
         self._cache[key] = r
         return r
 
+    # callees that, handed `&mut x`, cannot change how many elements x has (element access, in-place reordering, stepping
+    # an iterator, reading into a buffer)
+    KEEPS_LEN = re.compile(r"(IndexMut<.*>>::index_mut|::index_mut|DerefMut>::deref_mut|::iter_mut|::next|::next_back|"
+                           r"::as_mut_slice|::as_mut|::get_mut|::last_mut|::first_mut|::swap|::sort(_by|_by_key|_unstable)?|::reverse|::fill|"
+                           r"::copy_from_slice|::copy_within|Read>::read(_exact)?|::borrow_mut|Write>::write(_all|_fmt)?|Hasher>::write\w*|Hash>::hash)$")
+
+    def mut_borrows(self):
+        """{local: [(block, statement index)]} of the `&mut <place rooted at local>` handed to something that may change the
+        number of elements of the object (fixed-size arrays never change it; element access, reordering and iterator steps do
+        not either)"""
+        if "_mutb" not in self._cache:
+            out = {}
+            for bi, b in enumerate(self.blocks):
+                if b.get("cleanup"):
+                    continue
+                for si, st in enumerate(b["stmts"]):
+                    if st["k"] == "assign" and st["rv"]["k"] in ("ref", "rawptr") and st["rv"].get("mut"):
+                        l = st["rv"]["pl"]["l"]
+                        ty = (self.local_ty(l) or "").strip()
+                        if ty.startswith("[") and ";" in ty:
+                            continue
+                        tmp = st["lhs"]["l"] if not st["lhs"]["p"] else None
+                        cal = self._borrow_consumer(tmp, bi, si) if tmp is not None and self.local_name(tmp) is None else None
+                        if cal is not None and self.KEEPS_LEN.search(cal):
+                            continue
+                        out.setdefault(l, []).append((bi, si))
+            self._cache["_mutb"] = out
+        return self._cache["_mutb"]
+
+    def _borrow_consumer(self, tmp, bi, si):
+        """the callee a temporary `&mut` is handed to (through reborrows `&mut *tmp`, across the blocks of intervening
+        overflow / bounds assertions), or None"""
+        cur, start = bi, si + 1
+        for _ in range(8):
+            b = self.blocks[cur]
+            for st in b["stmts"][start:]:
+                if st["k"] == "assign" and st["rv"]["k"] in ("ref", "rawptr") and st["rv"]["pl"]["l"] == tmp and not st["lhs"]["p"]:
+                    tmp = st["lhs"]["l"]
+                elif st["k"] == "assign" and st["rv"]["k"] == "use" and st["rv"]["a"].get("pl") and st["rv"]["a"]["pl"]["l"] == tmp \
+                        and not st["rv"]["a"]["pl"]["p"] and not st["lhs"]["p"]:
+                    tmp = st["lhs"]["l"]
+            t = b["term"]
+            if t["k"] == "call" and any(a.get("pl") and not a["pl"]["p"] and a["pl"]["l"] == tmp for a in t.get("args", [])):
+                return t.get("callee") or t.get("decl") or ""
+            nx = [x for x in self._succ[cur] if not self.blocks[x].get("cleanup")]
+            if len(nx) != 1 or t["k"] == "call":
+                return None
+            cur, start = nx[0], 0
+        return None
+
     def _reads_mutable(self, s, bi=None, si=None):
         after = None
         for x in subterms(s):
+            if x[0] in ("var", "arg") and len(x) > 2 and isinstance(x[2], int) and bi is not None and x[2] in self.mut_borrows():
+                # an owned container that is borrowed mutably later (`let k = v.len(); v.clear(); .. k ..`)
+                if after is None:
+                    after = set()
+                    for nx in self._succ[bi]:
+                        after |= self.reachable(nx)
+                for (b2, s2) in self.mut_borrows()[x[2]]:
+                    if b2 in after or (b2 == bi and isinstance(si, int) and s2 > si) or (b2 == bi and si == "term"):
+                        return True
             if x[0] in ("var", "arg") and len(x) > 2 and isinstance(x[2], int):
                 # a local that is assigned again *after* this value was computed (in a block reachable from here, or later
                 # in this block) no longer is what the value was computed from (`let old = i; i -= 1; .. old ..`)
